@@ -71,6 +71,24 @@ def build_joint(cuqi, rs, tmpl):
     data = rs.randint(-3, 4, size=m).astype(float)
     gam = lambda nm: Gamma(float(rs.choice([1.0, 2.0, 0.5, 3.0])), float(rs.choice([1.0, 0.5, 2.0])), name=nm)
     roles = {}
+    if tmpl == "E":       # extreme scales and tiny moves: source blocks on scale 1e-9 / near 1e9 moving by 1e-3 /
+        # near 1 moving in the 7th digit, each feeding a childless block that depends on it with gain 1e9 / 1e3 / 1e6
+        def mean_a(g, l): return lambda a: g * (a - l)
+        def mean_c(g, l): return lambda c: g * (c - l)
+        def mean_u(g, l): return lambda u: g * (u - l)
+        spec = {"a": (0.0, 1e-9, 1e9, "b", mean_a), "c": (1e9, 1e-3, 1e3, "e", mean_c), "u": (1.0, 1e-6, 1e6, "v", mean_u)}
+        pairs = [k for k in ("a", "c", "u") if rs.rand() < 0.7] or [str(rs.choice(["a", "c", "u"]))]
+        dens, scales, locs = [], {}, {}
+        for k in pairs:
+            loc, sd, gain, leaf, mk = spec[k]
+            dim = int(rs.randint(1, 3))
+            dens.append(Gaussian(loc * np.ones(dim), sd ** 2, name=k))
+            dens.append(Gaussian(mk(gain, loc), 1.0, geometry=dim, name=leaf))
+            roles[k] = ("tiny", dim); roles[leaf] = ("tinyleaf", dim)
+            scales[k] = sd; locs[k] = loc
+        roles["__scale__"] = scales; roles["__loc__"] = locs
+        dens = [dens[i] for i in rs.permutation(len(dens))]
+        return JointDistribution(*dens), roles
     if tmpl == "H":       # hyper-parameter in the prior and one in the likelihood
         d, l = gam("d"), gam("l")
         gm = rs.rand() < 0.3
@@ -151,6 +169,25 @@ def exp_sampler(cuqi, rs, role, dim):
     return {"MH": MH, "CWMH": CWMH, "MALA": MALA, "ULA": ULA, "PCN": PCN}[c](scale=sc, **ip)
 
 
+def exp_sampler_E(cuqi, rs, roles, n):
+    from cuqi.experimental.mcmc import MH, Direct
+    role, dim = roles[n]
+    if role == "tiny":
+        sd, loc = roles["__scale__"][n], roles["__loc__"][n]
+        ip = loc + sd * rs.randint(-2, 3, size=dim).astype(float)
+        # 100*sd: almost every proposal is rejected (the block stays identical); 0.3*sd, sd: it moves slightly
+        return MH(scale=sd * float(rs.choice([0.3, 1.0, 1.0, 100.0])), initial_point=ip)
+    ip = {"initial_point": rs.randint(-2, 3, size=dim).astype(float)} if rs.rand() < 0.5 else {}
+    return Direct(**ip) if rs.rand() < 0.7 else MH(scale=1.0, **ip)
+
+
+def legacy_factory_E(cuqi, rs, roles, n):
+    import cuqi.sampler as LS
+    role, dim = roles[n]
+    sc = roles["__scale__"][n] * float(rs.choice([0.3, 1.0, 1.0, 100.0])) if role == "tiny" else 1.0
+    return "MH", (lambda target, sc=sc: LS.MH(target, scale=sc))
+
+
 def legacy_factory(cuqi, rs, role):
     import cuqi.sampler as LS
     if role == "hyper":
@@ -203,8 +240,10 @@ class CondRecorder:
         return None if r is None or r[0] is not target else r[1]
 
 
-def probes(role, point):
+def probes(role, point, scale=None):
     p = vec(point)
+    if scale:                       # blocks living on an extreme scale: probe one natural unit away
+        return [p.copy(), p + scale]
     return [p.copy(), np.abs(p) + 0.5]
 
 
@@ -215,13 +254,18 @@ def full_logd(post, others, name, x):
         return float(np.asarray(post.logd(**kw)).reshape(-1)[0])
 
 
-def same_conditional(target, post, others, name, point):
+def same_conditional(target, post, others, name, point, scale=None):
     """the handed target and the full joint at (others, .) have the same log-density up to a constant:
     compared on the difference between two probe points (a constant offset does not change the conditional)"""
-    p1, p2 = probes(None, point)
-    a = tlogd(target, p1) - tlogd(target, p2)
-    b = full_logd(post, others, name, p1) - full_logd(post, others, name, p2)
-    return close(a, b, 1e-8), a, b
+    p1, p2 = probes(None, point, scale)
+    t1, t2 = tlogd(target, p1), tlogd(target, p2)
+    f1, f2 = full_logd(post, others, name, p1), full_logd(post, others, name, p2)
+    a, b = t1 - t2, f1 - f2
+    if not (math.isfinite(a) and math.isfinite(b)):
+        return True, a, b
+    # rounding of the individual log-densities (cancellation when they are huge) is allowed for
+    mag = max(abs(t1), abs(t2), abs(f1), abs(f2))
+    return abs(a - b) <= 1e-8 * (1.0 + max(abs(a), abs(b))) + 1e-11 * mag, a, b
 
 
 def tlogd(target, x):
@@ -232,11 +276,12 @@ def tlogd(target, x):
 # ----------------------------------------------------------------------------- experimental
 def run_hybrid(ctx, cuqi, idx, rs, thorough, stats):
     from cuqi.experimental.mcmc import HybridGibbs, NUTS
-    tmpl = ["H", "H", "P", "S", "W", "C"][idx % 6] if idx < 12 else str(rs.choice(["H", "H", "P", "S", "W", "C"]))
+    tmpl = ["H", "E", "P", "S", "W", "C", "E"][idx % 7] if idx < 14 else str(rs.choice(["H", "H", "P", "S", "W", "C", "E", "E"]))
     with quiet():
         post, roles = build_joint(cuqi, rs, tmpl)
     names = list(post.get_parameter_names())
-    strategy = {n: exp_sampler(cuqi, rs, *roles[n]) for n in names}
+    scales = roles.get("__scale__", {})
+    strategy = {n: (exp_sampler_E(cuqi, rs, roles, n) if tmpl == "E" else exp_sampler(cuqi, rs, *roles[n])) for n in names}
     # malformed strategies: one object under two names / a block without sampler / a key that is no parameter
     malformed = None
     u = rs.rand()
@@ -373,8 +418,15 @@ def run_hybrid(ctx, cuqi, idx, rs, thorough, stats):
                 if not np.array_equal(before, cur[n]):
                     fail("start", cls, cur[n].tolist(), before.tolist(), "the block sampler does not start from the block's current value")
             # ORACLE: the handed target is the joint conditioned on the most recent other values
+            # ... exactly: the keyword dictionary the held target was built from carries the CURRENT values, bit for bit
+            if oth is not None:
+                stats["target_dict_checks"] = stats.get("target_dict_checks", 0) + 1
+                bad = [m for m in expected if m not in oth or not np.array_equal(oth[m], expected[m])] + [m for m in oth if m not in expected]
+                if bad:
+                    fail("target", None, {m: expected[m].tolist() for m in bad if m in expected}, {m: oth[m].tolist() for m in bad if m in oth},
+                         "the target held by the block sampler was conditioned on values that are not exactly the most recent values of the other blocks")
             try:
-                ok, a, b = same_conditional(tgt, post, expected, n, before)
+                ok, a, b = same_conditional(tgt, post, expected, n, before, scales.get(n))
                 stats["target_probes"] = stats.get("target_probes", 0) + 1
                 if not (math.isfinite(a) and math.isfinite(b)):
                     stats["probe_nonfinite"] = stats.get("probe_nonfinite", 0) + 1
@@ -469,6 +521,7 @@ def run_hybrid(ctx, cuqi, idx, rs, thorough, stats):
     line = hg_line(par_names, flags, ",".join(str(k) for _, k in calls) if calls else "_",
                    ";".join(f"{1 if m else 0}|{qv(a)}" for m, a in draws) if draws else "_")
     state["init"] = init
+    state["scales"] = scales
     return line, (lambda out: compare_hybrid(ctx, K, desc, out, events, draws, snapshots, par_names, post, G, stats, state))
 
 
@@ -527,7 +580,7 @@ def compare_hybrid(ctx, K, desc, out, events, draws, snapshots, par_names, post,
             oth_m = {k: np.array(v) for k, v in pdict(f[2]).items()}
             p = np.array([float(__import__('fractions').Fraction(t)) for t in f[3].split(",")])
             try:
-                ok = same_conditional(tgt, post, oth_m, n, p)[0]
+                ok = same_conditional(tgt, post, oth_m, n, p, state.get('scales', {}).get(n))[0]
             except Exception:
                 ok = False
             if not ok:
@@ -582,16 +635,21 @@ def compare_hybrid(ctx, K, desc, out, events, draws, snapshots, par_names, post,
 # ----------------------------------------------------------------------------- legacy
 def run_legacy(ctx, cuqi, idx, rs, thorough, stats):
     import cuqi.sampler as LS
-    tmpl = ["H", "P", "S", "W", "C", "H"][idx % 6] if idx < 12 else str(rs.choice(["H", "H", "P", "S", "W", "C"]))
+    tmpl = ["H", "P", "S", "W", "C", "E"][idx % 6] if idx < 12 else str(rs.choice(["H", "H", "P", "S", "W", "C", "E"]))
     with quiet():
         post, roles = build_joint(cuqi, rs, tmpl)
     names = list(post.get_parameter_names())
-    chosen = {n: legacy_factory(cuqi, rs, roles[n][0]) for n in names}
+    scales = roles.get("__scale__", {})
+    chosen = {n: (legacy_factory_E(cuqi, rs, roles, n) if tmpl == "E" else legacy_factory(cuqi, rs, roles[n][0])) for n in names}
     classes = {n: chosen[n][0] for n in names}
     # init_point attributes on some densities
     ipts = {}
     for n in names:
-        if rs.rand() < 0.35:
+        if roles[n][0] == "tiny":      # start on the block's own scale (the default np.ones is 1e9 standard deviations away)
+            v = roles["__loc__"][n] + roles["__scale__"][n] * rs.randint(-2, 3, size=roles[n][1]).astype(float)
+            post.get_density(n).init_point = v
+            ipts[n] = v
+        elif rs.rand() < 0.35:
             v = np.array([float(rs.choice([0.5, 1.5, 2.0]))]) if roles[n][0] in ("hyper", "hyper2") else rs.randint(-2, 3, size=roles[n][1]).astype(float)
             post.get_density(n).init_point = v
             ipts[n] = v
@@ -636,8 +694,14 @@ def run_legacy(ctx, cuqi, idx, rs, thorough, stats):
                 expected = {m: cur[m] for m in par_names if m != n}
                 if not np.array_equal(x0, cur[n]):
                     fail("start", cur[n].tolist(), x0.tolist(), "the block sampler does not start from the block's current value", {"block": n})
+                if oth is not None:
+                    stats["target_dict_checks"] = stats.get("target_dict_checks", 0) + 1
+                    bad = [m for m in expected if m not in oth or not np.array_equal(oth[m], expected[m])] + [m for m in oth if m not in expected]
+                    if bad:
+                        fail("target", {m: expected[m].tolist() for m in bad if m in expected}, {m: oth[m].tolist() for m in bad if m in oth},
+                             "the target handed to the block sampler was conditioned on values that are not exactly the most recent values of the other blocks", {"block": n})
                 try:
-                    ok, a, b = same_conditional(self.target, post, expected, n, x0)
+                    ok, a, b = same_conditional(self.target, post, expected, n, x0, scales.get(n))
                     stats["target_probes"] = stats.get("target_probes", 0) + 1
                     if not (math.isfinite(a) and math.isfinite(b)):
                         stats["probe_nonfinite"] = stats.get("probe_nonfinite", 0) + 1
@@ -788,7 +852,7 @@ def run_legacy(ctx, cuqi, idx, rs, thorough, stats):
                 if oth is None:
                     oth_m = {k: np.array(v) for k, v in pdict(f[2]).items()}
                     try:
-                        ok = same_conditional(tgt, post, oth_m, n, x0)[0]
+                        ok = same_conditional(tgt, post, oth_m, n, x0, scales.get(n))[0]
                     except Exception:
                         ok = False
                     if not ok:
